@@ -122,7 +122,7 @@ def dominated_by_edge(body, edge):
 
 import re as _re2
 from analysis.pat import Pred as _Pred
-from analysis.sym import core as _core, nosite as _nosite, var_defs as _var_defs, defs_of as _defs_of, symbolizer as _symz, simplify as _simp
+from analysis.sym import sym as _sym, core as _core, nosite as _nosite, var_defs as _var_defs, defs_of as _defs_of, symbolizer as _symz, simplify as _simp
 
 
 def V(local):
@@ -222,3 +222,27 @@ def range_bounds(t):
         lo, hi = val(incl[0]), val(incl[1])
         return lo, (hi + 1 if isinstance(hi, int) else ('bin', 'Add', hi, ('const', '1', 1)))
     return None
+
+
+def byte_boundary_tests(body, xpat):
+    """guards of `body` that split on "x fits in a byte" for a value matching `xpat`: `x < 256` / `x <= 255` / `x >= 256` / `x > 255`
+    (either operand order) or a match on `u8::try_from(x)`. Returns [(guard, sign)] with sign +1 when the guarded edge means "fits"."""
+    from analysis.sym import edge_guards, guard_variants
+    from analysis.pat import match as _match, Const as _Const
+    out = []
+    u8try = [t for t in body.calls(r'try_from$') if body.local_ty(t.dest.local).startswith('std::result::Result<u8,')]
+    for g in edge_guards(body):
+        t, pol = g.atom()
+        if pol is not None:
+            c = _core(t)
+            for op, k, sign in (('Lt', 256, 1), ('Le', 255, 1), ('Ge', 256, -1), ('Gt', 255, -1)):
+                if _match(c, ('bin', op, xpat, _Const(k))):
+                    out.append((g, sign if pol else -sign))
+            continue
+        r = guard_variants(body, g)
+        if r is not None and r[1] in ({'Ok'}, {'Err'}):
+            v = _nosite(r[0])
+            if v[0] == 'call' and v[1].endswith('try_from') and v[2] and _match(_core(v[2][0]), xpat) and \
+                    any(_nosite(_sym(body, t.dest)) == v for t in u8try):
+                out.append((g, 1 if r[1] == {'Ok'} else -1))
+    return out
